@@ -173,6 +173,17 @@ def gen_stream(rng):
             else:
                 parts.append("")
         lines.append("".join(parts))
+    if rng.random() < 0.1:
+        # a line that is rewritten in place (a percentage, a spinner): "...text<CR>new text".  What comes after the
+        # last carriage return is the line; the escape sequences written before it still apply to it.
+        k = rng.randrange(len(lines))
+        rec = G.rand_record(rng, p_link=0.1, colors=colors, p_fg=0.9)
+        pre, suf = encode(rec)
+        a = S.free_string(rng, 8, w, space=0.1, min_len=1)
+        b = S.free_string(rng, 8, w, space=0.1, min_len=1)
+        lines[k] = rng.choice([pre + a + "\r" + b + suf, a + "\r" + pre + b + suf, pre + a + suf + "\r" + b,
+                               pre + a + "\r" + a + "\r" + b + suf]) + lines[k]
+        features.add("carriage_return_inside_line")
     if rng.random() < 0.12:
         # lines that end in CR LF (what a child process on Windows, or a network protocol dump, writes): the CR
         # before the line feed moves nothing visible
@@ -180,6 +191,19 @@ def gen_stream(rng):
         features.add("crlf")
     stream = "\n".join(lines) + ("\n" if rng.random() < 0.8 else "")
     return stream, features
+
+
+def _after_carriage_returns(line):
+    """The line as a terminal that starts it on an empty row shows it once it is complete (the redirect prints whole
+    lines): a CR directly before the line end is part of the line end; text before any other CR is overwritten - the
+    model keeps what follows the last one - while the escape sequences before it have been obeyed."""
+    import re
+    body = line[:-1] if line.endswith("\n") else line
+    body = body.rstrip("\r")
+    if "\r" in body:
+        head, _, tail = body.rpartition("\r")
+        body = "".join(m.group(0) for m in re.finditer(r"\x1b\[[0-?]*[ -/]*[@-~]|\x1b\].*?\x1b\\", head)) + tail
+    return body + ("\n" if line.endswith("\n") else "")
 
 
 def escape_spans(stream):
@@ -230,7 +254,7 @@ def wl_fileproxy(ctx, rng, case_no):
                 expected_plain.append(pending + "\n")
                 flushes_with_pending += 1
                 pending = ""
-    expected_stream = "".join(expected_plain).replace("\r\n", "\n")
+    expected_stream = "".join(_after_carriage_returns(l) for l in expected_plain)
     want = sgr.decode(expected_stream)
     wit = {"stream": stream, "ops": [list(o) for o in ops], "features": sorted(features)}
     ctx.count("mon.proxy_histories")
@@ -257,6 +281,8 @@ def wl_fileproxy(ctx, rng, case_no):
         tag += ":non-sgr-csi-in-stream"
     if "crlf" in features:
         tag += ":crlf-line-endings"
+    if "carriage_return_inside_line" in features:
+        tag += ":carriage-return-inside-a-line"
     if "reset_inside_link" in features:
         tag += ":sgr-reset-inside-a-hyperlink"
     if "flush_inside_escape" in features:
